@@ -1,4 +1,6 @@
 import LWV.Gen.Objects
+import LWV.Gen.Imports
+import LWV.Spec.Posix
 import LWV.Model.Sched
 /-
 C16 — no shared mutable state: concurrent use equals sequential use.
@@ -18,6 +20,16 @@ theorem C16_no_writable : ∀ f ∈ Gen.objectFiles, ∀ o ∈ f.objects, o.cls 
 /-- the translator saw the whole library (a vanished file list would make the above vacuous) -/
 theorem C16_nonvacuous : 30 ≤ Gen.objectFiles.length ∧
     (Gen.objectFiles.flatMap (·.objects)).length ≥ 1 := by decide +kernel
+
+/-- the state the library shares could also sit in the C library: no object file imports a function that POSIX lists
+as working on process-wide hidden state (`rand`, `strtok`, `localtime`, `strerror`, `getenv`, ...).
+`Gen.imports` is regenerated from the undefined symbols of the -O2 objects. -/
+theorem C16_no_shared_libc : ∀ s ∈ Gen.imports, s ∉ Spec.sharedStateLibc := by decide +kernel
+
+/-- the import table is not empty (the allocator and `memcpy` are always there), and the two generators of hidden
+state the property is most often broken with are on the list -/
+theorem C16_imports_nonvacuous : n!"malloc" ∈ Gen.imports ∧ n!"memcpy" ∈ Gen.imports ∧
+    n!"rand" ∈ Spec.sharedStateLibc ∧ n!"strtok" ∈ Spec.sharedStateLibc := by decide +kernel
 
 /-! schedule independence of the API-call model -/
 
